@@ -440,6 +440,35 @@ def incdir_inputs(rng, n):
                "facts": {"ambiguous_include_strings": len(amb), "include_strings_through_I": len(via_i), "decoys": ndecoys}}
 
 
+def precedence_inputs(rng, n):
+    """search precedence: every included file exists twice under the same name — beside the including file
+    (proj/) and, with other contents, in vendor/ — and the command line lists -I vendor before -I proj, so the
+    including file's own directory is also one of the -I directories. The directory of the including file is
+    searched first whatever the spelling of the paths, so every run (from the root, from proj/, from vendor/, with
+    absolute paths) must take the files of proj/ and generate the same bytes"""
+    ts = text_schemas(rng, n, "Q", min_decls=3)
+    for i, t in enumerate(ts):
+        r = random.Random(rng.randint(0, 1 << 30))
+        sp = F.split_files(t, r, 2 + i % 3, ("chain", "diamond", "random")[i % 3])
+        if sp["include_dirs"]:
+            continue
+        files, _ = _place(sp, "proj/qmain.prophy", base_dir="proj")
+        if len(files) < 2:
+            continue
+        for q, text in list(files.items()):
+            if q != "proj/qmain.prophy":
+                files[os.path.normpath(os.path.join("vendor", os.path.relpath(q, "proj")))] = decoy_text(text, q)
+        include_dirs = ["vendor", "proj"]
+        base = {"include_dirs": include_dirs}
+        b = dict(base, mains=["proj/qmain.prophy"])
+        pairs = [("cwd", b, dict(b, cwd="proj")), ("cwd", b, dict(b, cwd="vendor")), ("cwd", b, dict(b, abs="root")),
+                 ("cwd", dict(b, cwd="proj"), dict(b, abs="foreign"))]
+        amb, via_i, _ = include_facts(files, include_dirs)
+        yield {"input": "precedence", "layout": "same names in proj/ (beside the main file) and vendor/; -I vendor -I proj",
+               "files": files, "mains": ["proj/qmain.prophy"], "base": base, "pairs": pairs,
+               "facts": {"ambiguous_include_strings": len(amb), "include_strings_through_I": len(via_i), "decoys": len(files) // 2}}
+
+
 def variations(inp, rng, idx):
     """[(variation kind, baseline parameters, variant parameters)]"""
     b = dict(inp["base"], mains=list(inp["mains"]))
@@ -532,6 +561,7 @@ def main():
     inputs += list(isar_inputs(rng, 20 * m))
     inputs += list(project_inputs(rng, 24 * m))
     inputs += list(incdir_inputs(rng, 12 * m))
+    inputs += list(precedence_inputs(rng, 8 * m))
     jobs = []
     for idx, inp in enumerate(inputs):
         pairs = inp.get("pairs") or variations(inp, random.Random(chk.seed * 1000003 + idx), idx)
